@@ -14,7 +14,9 @@ CLAIMED = {
  "C13": ("SPEC location model + stateful history against a shadow document", "4", "for every accessor of every generated result: Set on a fresh copy, then document diff against the original with exactly SPEC's predicted location replaced, Get liveness before/after; drawn Set/direct-update histories checked against a shadow copy; Set == nil exactly for non-locations"),
  "C14": ("SPEC call-log differential with recording functions", "4", "per function occurrence, the recorded arguments (count, order, values; list vs array-elements for aggregates) are compared with SPEC's expected call log; results must be the chained return values; ErrorFunctionFailed when only functions failed"),
  "C15": ("SPEC failure-candidate differential", "4", "for every generated failing (path, document): the reported error (Go type, path text, expected, found) must match a failure SPEC finds at the deepest failing step, non-type failures preferred; exact for single-valued paths"),
+ "C18": ("metamorphic (spelling variants) guarded by PEGI", "4", "each generated AST rendered in 2..6 random spellings of the kinds the grammar declares insignificant (each verified derivable by PEGI); all spellings must return deep-equal values or errors of the same type for the same step"),
  "C20": ("SPEC differential on documents with injected non-JSON values", "4", "generated documents with leaves/sub-containers replaced by 22 kinds of non-JSON Go values; results (by identity), function arguments and errors (ErrorTypeUnmatched naming the Go type) compared with SPEC's opaque-leaf rule; no panic"),
+ "C16": ("model-based (Go map lookup) over generated keys and spellings", "4", "generated keys (all planes, symbols, control characters, escape look-alikes) among near-miss siblings, addressed through every spelling (single/double quotes x 3 escape styles, lone-surrogate escape, dot form) in 9 positions; each must return exactly the map's value; absent near-miss keys must give ErrorMemberNotExist"),
  "C17": ("differential against PEGI, an interpreter of jsonpath.peg", "4", "Parse's accept/reject decision, error type, character position and near text compared with an independent interpreter executing the published grammar file plus the documented restrictions, on generated/mutated strings and the enumerated reduced grammar"),
 }
 PENDING = {}
